@@ -59,7 +59,10 @@ _named_cache = {}
 def named_by_rules(name):
     """does any rule table / engine table mention this function name?"""
     if name not in _named_cache:
-        _named_cache[name] = re.search(r"(?<![A-Za-z0-9_])%s(?![A-Za-z0-9_])" % re.escape(name), _rule_text()) is not None
+        # a function a rule anchors on appears as the tail of a path ("…::name") or as a whole string completing one (`PV + "name"`), not as a dict key; the same
+        # word inside a label or a comment ("writers.contains(user)") does not make a helper called `writers` an anchor
+        n_ = re.escape(name)
+        _named_cache[name] = re.search(r"(::%s(?![A-Za-z0-9_])|[\"']%s[\"'](?!\s*:))" % (n_, n_), _rule_text()) is not None
     return _named_cache[name]
 
 
@@ -829,6 +832,9 @@ def inline_detail(F, body, raw):
                     work.append((blk["id"], hp, 1, (body.path, hp[0].path, hp[1].path)))
     if not work:
         return raw
+    # combinators and closure calls of the body itself first: a helper's return sites can only be threaded into a continuation that
+    # already is a branch (`helper().is_none_or(..)` → `match helper() { .. }`)
+    work.sort(key=lambda w: 0 if isinstance(w[1], tuple) and w[1] and w[1][0] in ("comb", "clcall") else 1)
     det = {"blocks": [dict(b, stmts=list(b["stmts"]), term=dict(b["term"])) for b in blocks], "locals": dict(raw["locals"]),
            "vars": list(raw["vars"]), "argc": raw["argc"], "inlined": [],
            "extra": {"calls": [], "aggregates": [], "field_mut": [], "asserts": []}}
